@@ -18,6 +18,13 @@ def Val.shapeB (env : Env) (v : Val) : Bool :=
   (env.sub (v.typeOf env) env.iteratorCls == (match v with | .iterator _ _ => true | _ => false)) &&
   (match v with | .ntup _ names xs => names.length == xs.length | _ => true)
 
+/-- facts about the class table the proofs use: issubclass is reflexive, every class object is an instance of `type`,
+    an `int` is well-shaped (elements of a `bytes` value) -/
+structure WfEnv (env : Env) : Prop where
+  refl : ∀ c, env.sub c c = true
+  metaSub : ∀ c, env.sub (env.metaOf c) env.typeCls = true
+  intShape : Val.shapeB env (.lit (.int 0)) = true
+
 mutual
 /-- hereditary well-formedness -/
 def Val.wf (env : Env) : Val → Bool
